@@ -37,9 +37,9 @@ def model_tags(spec):
 def plan(tier, seed):
     nmax = 6 if tier == "quick" else 7
     return [{"shard": i, "nshards": NSHARDS, "nmax": nmax,
-             "n_random_small": 150 if tier == "quick" else 6000,
-             "n_random_large": 40 if tier == "quick" else 1500,
-             "sample8": 0 if tier == "quick" else 24000} for i in range(NSHARDS)]
+             "n_random_small": 150 if tier == "quick" else 40000,
+             "n_random_large": 40 if tier == "quick" else 8000,
+             "sample8": 0 if tier == "quick" else 100000} for i in range(NSHARDS)]
 
 
 def fama_specs():
